@@ -422,7 +422,20 @@ def mkManifest (o : EncryptOpts) (wfk np : Bytes) : Manifest :=
   { keyName := manifestKeyName o, kw := o.kw, wfk := wfk, cph := o.cph, np := np }
 
 /-- `Encrypt` after option validation: `fk`, `np` are the 39 random bytes, `wfk` what
-    `WrapKeyFn` returned.  Result: the bytes written to the pipe and the close status. -/
+    `WrapKeyFn` returned.  Result: the bytes written to the pipe and the close status.
+
+    Callback contract (values, not memory).  `fk` is the VALUE of the file key at the moment
+    `WrapKeyFn` is called and `wfk` the VALUE of the returned slice at the moment it returns; the
+    callback may afterwards do anything with the memory of its argument (wipe it, wrap in place and
+    return the same slice, append to it).  The model is entitled to treat both as immutable values
+    because (T1, `Gen.fileKeyReadersAfterWrap = []`) nothing that runs in `Encrypt` after the call
+    reads the `fileKey` field again — header key and payload key are derived in `importFileKey`,
+    before the call — and (T1, `Gen.fileKeySlicesCapLimited`) the slices `newFileKey` hands out have
+    no spare capacity, so an `append` by the callback cannot reach the nonce prefix.  `wfk` is read
+    once, by `json.Marshal`, before `Encrypt` returns.  Symmetrically for `Decrypt`: `DecryptOpts.unwrap`
+    is the value `UnwrapKeyFn` returns at return time; `importFileKey` derives both keys from it
+    before `Decrypt` returns, and the manifest's `wfk` is not read after the call.  T2: the
+    argument-mutating callback family of `cmd/c01` (`wrap_mode`, `unwrap_mode`). -/
 def encryptImpl (c : Crypto) (cd : Codec) (P : EncParams) (o : EncryptOpts) (fk np wfk : Bytes)
     (r : Reader) : Bytes × Terminal :=
   let manifest := cd.render (mkManifest o wfk np)
